@@ -17,5 +17,5 @@ MANIFEST = {
     "design_ref": "DESIGN.md §5 C07",
     "technique": "Lean theorems over a model of the recovering driver parametric in the recoverer (RecovererOK ⇒ shape of the error list) + direct check of that shape and of termination on the real parser",
     "text": "Theorems (Props/C07.lean) for the model recRun of Parser::lr with an arbitrary recoverer satisfying RecovererOK (it never moves backwards and leaves the parser where a plain parse runs N lexemes or accepts — which C05 establishes per reported error): errors are N lexemes apart in strictly increasing position, all but the last carry a repair, a value implies all do (errors_shape); their number is at most |w|/N + 1 (errors_bounded); a value with an empty error list is the plain parse (clean_accept); whatever the recoverer does, the first error is at the position where recovery off reports its only error (first_error_is_plain_error: the last clause of C04 at the level of the driver model). The same shape is checked on every result of the real parser, and every parse runs under a watchdog.",
-    "note": "Liveness: termination of the plain LR loop is a theorem for automata that pass the termination certificate (C01.lr_terminates; the certificate is evaluated per automaton under C01), termination of the recovering driver additionally rests on the recoverer's time budget, which is not modelled; both are also observed (CPU-time watchdog, plain-LR pre-check) on acyclic grammars; grammars with a derivation cycle are excluded as the property says. Known finding: hidden left recursion with a precedence-resolved conflict makes the LR loop diverge. Trusted: Lean kernel, worker process, orchestrator.",
+    "note": "Liveness: termination of the plain LR loop is a theorem for automata that pass the termination certificate over adjacent state pairs (C01.lr_terminates with Term.termCheckAdj; the certificate is evaluated per automaton under C01, where a failing pair with a loop witness is a violation for conflict-free tables without precedence-resolved cells and is counted for the others — C01.cert_cycle_parse_diverges: a parse that reaches such a pair never ends), termination of the recovering driver additionally rests on the recoverer's time budget, which is not modelled; both are also observed (CPU-time watchdog, plain-LR pre-check) on acyclic grammars; grammars with a derivation cycle are excluded as the property says. Known finding: hidden left recursion with a precedence-resolved conflict makes the LR loop diverge. Trusted: Lean kernel, worker process, orchestrator.",
 }
